@@ -274,7 +274,7 @@ func udpRun(w *vt.Writer, r *rand.Rand, pool []*entities.InfoElement, dur time.D
 	closing.Store(true)
 	time.Sleep(40 * time.Millisecond)
 	// concurrent, repeated Close from 1..4 goroutines
-	nc := 1 + r.Intn(4)
+	nc := 2 + r.Intn(3) // always overlapping Close calls here (single closers: the TCP scenarios)
 	var wg sync.WaitGroup
 	for c := 0; c < nc; c++ {
 		wg.Add(1)
@@ -353,7 +353,7 @@ func udpPeerGone(w *vt.Writer, r *rand.Rand, pool []*entities.InfoElement) int {
 
 // udpLateCollector: the collector's port is closed when the exporter starts (the first sends fail with "connection
 // refused"), then the collector comes up; from then on everything written arrives whole, refreshes included, also
-// while the refresher and the application write at the same time (200 templates make the refresh burst long).
+// while the refresher and the application write at the same time (600 templates make the refresh burst long).
 func udpLateCollector(w *vt.Writer, r *rand.Rand, pool []*entities.InfoElement) int {
 	probe, err := net.ListenUDP("udp", &net.UDPAddr{IP: net.IPv4(127, 0, 0, 1)})
 	if err != nil {
@@ -407,7 +407,7 @@ func udpLateCollector(w *vt.Writer, r *rand.Rand, pool []*entities.InfoElement) 
 			w.Emit(vt.Ev{"e": "Recv", "bytes": vt.B(buf[:n]), "sec": int(time.Now().Unix())})
 		}
 	}()
-	for len(tmpls) < 200 { // a long refresh burst
+	for len(tmpls) < 600 { // a long refresh burst
 		tid := 256 + len(tmpls)
 		tmpls[tid] = sets.RandTemplate(r, pool, 2)
 		send(sets.Tmpl(tid, tmpls[tid]))
@@ -415,6 +415,9 @@ func udpLateCollector(w *vt.Writer, r *rand.Rand, pool []*entities.InfoElement) 
 	for time.Since(start) < 2400*time.Millisecond { // two refresh ticks overlap these sends
 		tid := 256 + r.Intn(len(tmpls))
 		send(sets.Data(r, tid, tmpls[tid], 1+r.Intn(3), 20, 2000))
+		if ph := time.Since(start) % time.Second; ph < 60*time.Millisecond || ph > 980*time.Millisecond {
+			continue // around the refresh ticks (1 s after the exporter was created, give or take): back to back
+		}
 		time.Sleep(time.Duration(r.Intn(1500)) * time.Microsecond)
 	}
 	var wg sync.WaitGroup
